@@ -6,6 +6,8 @@ package main
 // clause (its call havocs the heap): counters it provably cannot bump survive.
 
 import (
+	"fmt"
+	"os"
 	"go/ast"
 	"go/types"
 )
@@ -29,14 +31,39 @@ func (eng *Engine) bumpSetLocked(fn *types.Func, onStack map[*types.Func]bool) m
 	if s, ok := eng.bumpMemo[fn]; ok {
 		return s
 	}
-	if name, ok := eng.bumpVar(fn); ok {
-		return map[string]bool{name: true}
+	if bs := eng.bumpsOf(fn); len(bs) > 0 {
+		out := map[string]bool{}
+		for _, b := range bs {
+			out[b.name] = true
+		}
+		return out
 	}
 	if isIfaceMethod(fn) || !eng.inModule(fn) {
 		return map[string]bool{} // cannot call counted functions on behalf of verified code
 	}
 	di := eng.decls[fn]
+	if di == nil && fn.Pkg() != nil {
+		// lazily index the declarations of a dependency loaded with syntax
+		if p := eng.byPath[fn.Pkg().Path()]; p != nil && p.TypesInfo != nil && !eng.declIndexed[p.PkgPath] {
+			eng.declIndexed[p.PkgPath] = true
+			for _, f := range p.Syntax {
+				for _, d := range f.Decls {
+					if fd, ok := d.(*ast.FuncDecl); ok {
+						if o, _ := p.TypesInfo.Defs[fd.Name].(*types.Func); o != nil {
+							if _, have := eng.decls[o]; !have {
+								eng.decls[o] = &declInfo{fd, p}
+							}
+						}
+					}
+				}
+			}
+			di = eng.decls[fn]
+		}
+	}
 	if di == nil || di.decl.Body == nil {
+		if os.Getenv("GOVC_DEBUG_BUMPS") != "" {
+			fmt.Fprintf(os.Stderr, "bumps: no syntax for %s\n", fn.FullName())
+		}
 		return map[string]bool{bumpAll: true} // in-module code we have no syntax for
 	}
 	if onStack[fn] {
@@ -82,6 +109,9 @@ func (eng *Engine) bumpSetLocked(fn *types.Func, onStack map[*types.Func]bool) m
 						return true
 					}
 				}
+			}
+			if os.Getenv("GOVC_DEBUG_BUMPS") != "" {
+				fmt.Fprintf(os.Stderr, "bumps: function-value call %s in %s\n", types.ExprString(call.Fun), fn.FullName())
 			}
 			out[bumpAll] = true
 			return true
